@@ -104,7 +104,16 @@ func genSealRoundtrip(h *H) {
 				s := h.randSealSpec(2, 1)
 				s.v = v
 				h.tag("len:chunk-boundary")
-				h.Run(sealCase(s, [][]byte{h.rng.Bytes(k*mib + d)}, sealRng(h.rng, 2), true))
+				msg := h.rng.Bytes(k*mib + d)
+				h.Run(sealCase(s, [][]byte{msg}, sealRng(h.rng, 2), true))
+				pats := []int{k + d + 1, k + d + 3}
+				if thorough {
+					pats = []int{0, 1, 2, 3, 4}
+				}
+				for _, pt := range pats {
+					h.tag("len:chunk-boundary-streamed")
+					h.Run(sealCase(s, bigPieces(pt, msg), sealRng(h.rng, 2), false))
+				}
 			}
 		}
 	}
